@@ -66,6 +66,9 @@ func genC18(r *kernel.Rand) *kernel.Scenario {
 	c["impatient_pct"] = int64([]int{0, 0, 30, 60}[r.Intn(4)])
 	c["stall_epilogue"] = int64(r.Weighted([]int{2, 1}))
 	c["scale_epilogue"] = int64(r.Weighted([]int{4, 1, 1}))
+	if kernel.NewRand(kernel.Derive(r.Uint64(), "cache-epilogue")).Bool(0.3) {
+		c["cache_epilogue"] = 1
+	}
 	burst := r.Bool(0.3)
 	for k := 0; k < nc; k++ {
 		c[fmt.Sprintf("c%d_kind", k)] = int64(r.Intn(2))
